@@ -69,3 +69,32 @@ Theorem C12_marginal_means_add_up_real :
     = m1 (fun n : nat => @mexp n) a S R1 t + m1 (fun n : nat => @mexp n) a S R2 t.
 Proof. by move=> *; apply: real_m1_additive. Qed.
 Print Assumptions C12_marginal_means_add_up_real.
+
+(* ------------------------------------------------------------------------------------------------
+   Finite sums and order k, with the real matrix exponential (proofs/ExpLaws2.v).
+
+   C12_first_moment_of_sum_real    the first-moment functional of a finite sum of reward matrices
+                                   (any finite index type: the demes, the loci) is the sum of the
+                                   first moments: the per-population / per-locus marginal means add
+                                   up to the mean of the total, for any number of populations.
+   C12_moment_slot_additive_real   at any order k, the k-th order functional [mk] is additive in each
+                                   of its k reward slots separately ([rset Rs j X] is the reward
+                                   family Rs with slot j replaced by X): replacing the reward in
+                                   slot j by a sum X + Y gives the sum of the two k-th order (cross)
+                                   moments - so k-th order cross moments of marginals decompose the
+                                   k-th order moments of the totals, slot by slot. *)
+From PG Require Import proofs.ExpLaws2.
+
+Theorem C12_first_moment_of_sum_real :
+  forall n (a : 'rV[R]_n) (S : 'M[R]_n) (t : R) (I : finType) (Rs : I -> 'M[R]_n),
+    m1 (fun n : nat => @mexp n) a S (\sum_i Rs i) t = \sum_i m1 (fun n : nat => @mexp n) a S (Rs i) t.
+Proof. exact: real_m1_sum. Qed.
+Print Assumptions C12_first_moment_of_sum_real.
+
+Theorem C12_moment_slot_additive_real :
+  forall n (a : 'rV[R]_n) (S : 'M[R]_n) (Rs : nat -> 'M[R]_n) (j : nat) (X Y : 'M[R]_n) (k : nat) (t : R),
+    (j < k)%N ->
+    mk (fun n : nat => @mexp n) a S (rset Rs j (X + Y)) k t
+    = mk (fun n : nat => @mexp n) a S (rset Rs j X) k t + mk (fun n : nat => @mexp n) a S (rset Rs j Y) k t.
+Proof. exact: real_mk_additive_slot. Qed.
+Print Assumptions C12_moment_slot_additive_real.
